@@ -40,6 +40,9 @@
 (*                 SetCoordinates) has exactly the requested kind, system  *)
 (*                 and metric -- as attributes and as what it answers      *)
 (*   Coherent      attributes and answers of every wrapper agree           *)
+(*   Rebuilt       a request with reconstruct = TRUE is answered from the   *)
+(*                 coordinates the grid reports now (Recentre = Grid.       *)
+(*                 construct_face_centers changes the face centres)         *)
 (*   StableHandle  every promise made earlier still holds: a handle keeps  *)
 (*                 answering for what was requested when it was handed     *)
 (*                 out, until its holder sets its coordinates.  Stronger   *)
@@ -61,23 +64,30 @@ CONSTANTS Kinds,       \* element kinds
           MaxLen,      \* history length bound (generation)
           Record,      \* BOOLEAN: keep history in the state
           WithSet,     \* BOOLEAN: include SetCoordinates actions
-          WithRemap    \* BOOLEAN: include remap calls (they use the grid's ball-tree slot internally)
+          WithRemap,   \* BOOLEAN: include remap calls (they use the grid's ball-tree slot internally)
+          WithRecentre, \* BOOLEAN: include Grid.construct_face_centers (the face centres the grid reports change)
+          Shape        \* "any", or "recentre_mid": the second action (and only it) is Recentre
 
 VARIABLES objs,      \* Seq of wrapper records
           ref,       \* [ball |-> handle or 0, kd |-> handle or 0]
           promises,  \* Seq of [h, want]: what each handed-out handle was requested to be
           last,      \* [op, h, want]: the most recent action, its handle, what it must reflect
           n,         \* number of actions so far
-          hist       \* Seq of [act, ret, pred] (only when Record)
+          hist,      \* Seq of [act, ret, pred] (only when Record)
+          cv         \* version of the grid's face centres (0 = as first reported, 1 = recomputed)
 
-vars == <<objs, ref, promises, last, n, hist>>
+vars == <<objs, ref, promises, last, n, hist, cv>>
 
 None == "none"
 
-MechIntended == [ cmp |-> {"system", "metric"}, alias |-> FALSE ]
-MechObserved == [ cmp |-> {"system", "metric"}, alias |-> TRUE ]
-MechKindOnly == [ cmp |-> {}, alias |-> TRUE ]
-MechNoMetric == [ cmp |-> {"system"}, alias |-> TRUE ]
+\* honourRec: reconstruct = TRUE always builds a new wrapper from the coordinates the grid reports now
+MechIntended == [ cmp |-> {"system", "metric"}, alias |-> FALSE, honourRec |-> TRUE ]
+MechObserved == [ cmp |-> {"system", "metric"}, alias |-> TRUE, honourRec |-> TRUE ]
+MechKindOnly == [ cmp |-> {}, alias |-> TRUE, honourRec |-> TRUE ]
+MechNoMetric == [ cmp |-> {"system"}, alias |-> TRUE, honourRec |-> TRUE ]
+\* in-model mutant: reconstruct only sets the wrapper's flag; a request for the kind the wrapper already
+\* shows is handed the old tree
+MechRecFlagOnly == [ cmp |-> {"system", "metric"}, alias |-> TRUE, honourRec |-> FALSE ]
 
 \* default alphabets (cfg files cannot write sets of tuples)
 BallCombosDefault == { <<"spherical", "haversine">>, <<"cartesian", "minkowski">>, <<"cartesian", "manhattan">> }
@@ -87,34 +97,40 @@ KindsDefault      == { "nodes", "face centers", "edge centers" }
 
 Combos(t) == IF t = "ball" THEN BallCombos ELSE KdCombos
 
+\* only the face centres have versions
+SlotCv(kind) == IF kind = "face centers" THEN cv ELSE 0
+NoSlot == <<None, None, 0>>
+
 NewWrapper(t, kind, sys, met, rec) ==
     [ tree |-> t, coords |-> kind, sys |-> sys, met |-> met, rec |-> rec,
-      slots |-> [ k \in Kinds |-> IF k = kind THEN <<sys, met>> ELSE <<None, None>> ] ]
+      slots |-> [ k \in Kinds |-> IF k = kind THEN <<sys, met, SlotCv(kind)>> ELSE NoSlot ] ]
 
 \* the `coordinates` setter (neighbors.py): select the sub-slot, building it -- from the
 \* wrapper's own system and metric -- when it is empty or the wrapper was made with reconstruct
 SetCoord(o, kind) ==
     [ o EXCEPT !.coords = kind,
-               !.slots[kind] = IF @ = <<None, None>> \/ o.rec THEN <<o.sys, o.met>> ELSE @ ]
+               !.slots[kind] = IF @ = NoSlot \/ o.rec THEN <<o.sys, o.met, SlotCv(kind)>> ELSE @ ]
 
 \* what a query on wrapper o answers for / what its attributes say
 Effective(o) == << o.coords, o.slots[o.coords][1], o.slots[o.coords][2] >>
 Attr(o)      == << o.coords, o.sys, o.met >>
+EffCv(o)     == o.slots[o.coords][3]     \* the centre version its answers are computed from
 
-Pred(os) == [ i \in 1..Len(os) |-> Effective(os[i]) ]
+Pred(os) == [ i \in 1..Len(os) |-> Effective(os[i]) \o << EffCv(os[i]) >> ]
 
 Log(act, ret, os) == IF Record THEN Append(hist, [ act |-> act, ret |-> ret, pred |-> Pred(os) ]) ELSE hist
 
 Get(t, kind, sys, met, rec) ==
     LET c       == ref[t]
         rebuild == \/ c = 0
-                   \/ rec
+                   \/ (rec /\ Mech.honourRec)
                    \/ ("system" \in Mech.cmp /\ objs[c].sys # sys)
                    \/ ("metric" \in Mech.cmp /\ objs[c].met # met)
         want    == << kind, sys, met >>
     IN
     /\ n < MaxLen
     /\ n' = n + 1
+    /\ cv' = cv
     /\ IF rebuild
        THEN LET o  == NewWrapper(t, kind, sys, met, rec)
                 os == IF Mech.alias THEN Append(objs, o) ELSE Append(Append(objs, o), o)
@@ -123,16 +139,17 @@ Get(t, kind, sys, met, rec) ==
             IN /\ objs' = os
                /\ ref' = [ ref EXCEPT ![t] = cached ]
                /\ promises' = Append(promises, [ h |-> h, want |-> want ])
-               /\ last' = [ op |-> "get", h |-> h, want |-> want ]
+               /\ last' = [ op |-> "get", h |-> h, want |-> want, rec |-> rec ]
                /\ hist' = Log(<<"get", t, kind, sys, met, rec>>, h, os)
-       ELSE LET o  == IF kind # objs[c].coords THEN SetCoord(objs[c], kind) ELSE objs[c]
+       ELSE LET o1 == IF Mech.honourRec THEN objs[c] ELSE [ objs[c] EXCEPT !.rec = rec ]
+                o  == IF kind # o1.coords THEN SetCoord(o1, kind) ELSE o1
                 os == IF Mech.alias THEN [ objs EXCEPT ![c] = o ]
                       ELSE Append([ objs EXCEPT ![c] = o ], o)
                 h  == IF Mech.alias THEN c ELSE Len(os)
             IN /\ objs' = os
                /\ ref' = ref
                /\ promises' = Append(promises, [ h |-> h, want |-> want ])
-               /\ last' = [ op |-> "get", h |-> h, want |-> want ]
+               /\ last' = [ op |-> "get", h |-> h, want |-> want, rec |-> rec ]
                /\ hist' = Log(<<"get", t, kind, sys, met, rec>>, h, os)
 
 \* the caller assigns `handle.coordinates = kind`; earlier promises about that handle lapse
@@ -145,10 +162,11 @@ SetCoordinates(h, kind) ==
     /\ WithSet
     /\ n < MaxLen
     /\ n' = n + 1
+    /\ cv' = cv
     /\ objs' = os
     /\ ref' = ref
     /\ promises' = Append(keep, [ h |-> h, want |-> want ])
-    /\ last' = [ op |-> "set", h |-> h, want |-> want ]
+    /\ last' = [ op |-> "set", h |-> h, want |-> want, rec |-> FALSE ]
     /\ hist' = Log(<<"set", h, kind>>, h, os)
 
 \* A remap call from this grid (remap/utils.py): get_ball_tree(coordinates = kind of the data,
@@ -163,11 +181,24 @@ RemapUse(kind, coord) ==
     /\ "ball" \in Trees
     /\ n < MaxLen
     /\ n' = n + 1
+    /\ cv' = cv
     /\ objs' = os
     /\ ref' = [ ref EXCEPT !["ball"] = Len(os) ]
     /\ promises' = promises
-    /\ last' = [ op |-> "remap", h |-> 0, want |-> << kind, sys, met >> ]
+    /\ last' = [ op |-> "remap", h |-> 0, want |-> << kind, sys, met >>, rec |-> TRUE ]
     /\ hist' = Log(<<"remap", kind, coord>>, 0, os)
+
+\* Grid.construct_face_centers: the face centres the grid reports are recomputed (they were supplied
+\* by the source and differ).  Trees built earlier are not touched.
+Recentre ==
+    /\ WithRecentre
+    /\ n < MaxLen
+    /\ cv = 0
+    /\ cv' = 1
+    /\ n' = n + 1
+    /\ UNCHANGED <<objs, ref, promises>>
+    /\ last' = [ op |-> "recentre", h |-> 0, want |-> <<None, None, None>>, rec |-> FALSE ]
+    /\ hist' = Log(<<"recentre">>, 0, objs)
 
 \* handles the caller holds (only these can be assigned to)
 Handles == { promises[i].h : i \in 1..Len(promises) }
@@ -175,24 +206,30 @@ Handles == { promises[i].h : i \in 1..Len(promises) }
 Init == /\ objs = <<>>
         /\ ref = [ ball |-> 0, kd |-> 0 ]
         /\ promises = <<>>
-        /\ last = [ op |-> "init", h |-> 0, want |-> <<None, None, None>> ]
+        /\ last = [ op |-> "init", h |-> 0, want |-> <<None, None, None>>, rec |-> FALSE ]
         /\ n = 0
         /\ hist = <<>>
+        /\ cv = 0
 
-Next == \/ \E t \in Trees : \E kind \in Kinds : \E c \in Combos(t) : \E rec \in Recs :
-              Get(t, kind, c[1], c[2], rec)
-        \/ \E h \in Handles : \E kind \in Kinds : SetCoordinates(h, kind)
-        \/ \E kind \in Kinds : \E coord \in {"spherical", "cartesian"} : RemapUse(kind, coord)
+Requests == \/ \E t \in Trees : \E kind \in Kinds : \E c \in Combos(t) : \E rec \in Recs :
+                  Get(t, kind, c[1], c[2], rec)
+            \/ \E h \in Handles : \E kind \in Kinds : SetCoordinates(h, kind)
+            \/ \E kind \in Kinds : \E coord \in {"spherical", "cartesian"} : RemapUse(kind, coord)
+Next == \/ (Shape = "any" \/ n # 1) /\ Requests
+        \/ (Shape = "any" \/ n = 1) /\ Recentre
 
 Spec == Init /\ [][Next]_vars
 
 (* ---- invariants ----------------------------------------------------------------------- *)
-TypeOK == /\ \A i \in 1..Len(objs) : objs[i].coords \in Kinds /\ objs[i].slots[objs[i].coords] # <<None, None>>
+TypeOK == /\ \A i \in 1..Len(objs) : objs[i].coords \in Kinds /\ objs[i].slots[objs[i].coords] # NoSlot
           /\ \A t \in {"ball", "kd"} : ref[t] \in 0..Len(objs) /\ (ref[t] > 0 => objs[ref[t]].tree = t)
 
 HandBack == last.op \in {"get", "set"} =>
               /\ Effective(objs[last.h]) = last.want
               /\ Attr(objs[last.h]) = last.want
+
+\* reconstruct = TRUE: the tree handed back is built from the coordinates the grid reports NOW
+Rebuilt == (last.op = "get" /\ last.rec) => EffCv(objs[last.h]) = SlotCv(objs[last.h].coords)
 
 Coherent == \A i \in 1..Len(objs) : Effective(objs[i]) = Attr(objs[i])
 
